@@ -10,6 +10,8 @@ def classify(r: dict) -> str:
     fam = "sqlalchemy" if b.startswith("sa") else b
     w = r.get("witness") or {}
     what = (r.get("what") or "") + " " + str(w.get("orm_result", ""))
+    if r["ob"] == "inlist":
+        return f"{fam}: long in-list arrives truncated"
     if r["ob"] == "case":
         if "bool-literal" in f:
             return f"{fam}: boolean literal compared by spelling (TRUE/True -> false)"
